@@ -118,6 +118,23 @@ def build_all(ctx):
     Returns a dict describing what is usable."""
     info = {"t0": time.time()}
     with Lock(os.path.join(ctx.cache, "build.lock")):
+        # Rust harness, both profiles, each binary separately (a Send/Sync failure must not take the tracer down)
+        hd = os.path.join(ctx.verif, "harness")
+        lock_src = os.path.join(ctx.repo, "Cargo.lock")
+        info["cargo"] = {}
+        env = {"CARGO_TARGET_DIR": os.path.join(ctx.build, "harness")}
+        if ctx.repo != "/repo":
+            # replay against a scratch copy: point the path dependency there
+            env["VERIF_REPO_OVERRIDE"] = ctx.repo
+        for prof, flag in (("debug", ""), ("release", "--release")):
+            for b in ("probe", "verif_harness", "sendsync", "conc"):
+                if prof == "debug" and b in ("sendsync",):
+                    continue
+                if prof == "release" and b == "probe":
+                    continue
+                rc, out, dt = sh("cargo build --offline %s --bin %s 2>&1" % (flag, b), cwd=hd, env=env, timeout=1800)
+                info["cargo"]["%s.%s" % (prof, b)] = {"rc": rc, "s": round(dt, 1),
+                                                      "err": "\n".join(l for l in out.splitlines() if not l.startswith("warning"))[-3000:] if rc else ""}
         rc, out, dt = sh([sys.executable, os.path.join(ctx.verif, "tools", "gen_coq.py"), ctx.repo,
                           os.path.join(ctx.coq, "gen")])
         info["gen_rc"], info["gen_out"] = rc, out.strip()
@@ -154,21 +171,6 @@ def build_all(ctx):
                     open(stamp, "w").write(key)
                 else:
                     info["model_ok"] = False
-        # Rust harness, both profiles, each binary separately (a Send/Sync failure must not take the tracer down)
-        hd = os.path.join(ctx.verif, "harness")
-        lock_src = os.path.join(ctx.repo, "Cargo.lock")
-        info["cargo"] = {}
-        env = {"CARGO_TARGET_DIR": os.path.join(ctx.build, "harness")}
-        if ctx.repo != "/repo":
-            # replay against a scratch copy: point the path dependency there
-            env["VERIF_REPO_OVERRIDE"] = ctx.repo
-        for prof, flag in (("debug", ""), ("release", "--release")):
-            for b in ("verif_harness", "sendsync", "conc"):
-                if prof == "debug" and b != "verif_harness":
-                    continue
-                rc, out, dt = sh("cargo build --offline %s --bin %s 2>&1" % (flag, b), cwd=hd, env=env, timeout=1800)
-                info["cargo"]["%s.%s" % (prof, b)] = {"rc": rc, "s": round(dt, 1),
-                                                      "err": "\n".join(l for l in out.splitlines() if not l.startswith("warning"))[-3000:] if rc else ""}
     info["build_s"] = round(time.time() - info.pop("t0"), 1)
     return info
 
@@ -192,7 +194,7 @@ def stage_key(ctx):
            os.path.join(ctx.verif, "known_findings.json")]
     fs += glob.glob(os.path.join(ctx.coq, "model", "*.v")) + glob.glob(os.path.join(ctx.coq, "spec", "*.v"))
     fs += glob.glob(os.path.join(ctx.verif, "corpus", "*"))
-    return sha_files(fs, "%s|%d" % (ctx.tier, ctx.seed))[:24]
+    return ctx.tier + "-" + sha_files(fs, "%s|%d" % (ctx.tier, ctx.seed))[:24]
 
 
 def gen_plan(ctx):
@@ -489,7 +491,8 @@ def run_stage(ctx, binfo):
         if os.path.exists(summ):
             return json.load(open(summ)), sdir
         # keep the cache small: drop older stages
-        for d in glob.glob(os.path.join(ctx.cache, "stage", "*")):
+        for d in glob.glob(os.path.join(ctx.cache, "stage", ctx.tier + "-*")) + \
+                [x for x in glob.glob(os.path.join(ctx.cache, "stage", "*")) if "-" not in os.path.basename(x)]:
             if d != sdir:
                 shutil.rmtree(d, ignore_errors=True)
         os.makedirs(sdir, exist_ok=True)
@@ -732,10 +735,12 @@ def run_stack(ctx, binfo):
     r = {"runs": []}
     hb = os.path.join(ctx.build, "harness", "release", "verif_harness")
     hd = os.path.join(ctx.build, "harness", "debug", "verif_harness")
-    plan = [(hb, 30000), (hd, 25000)] if ctx.tier == "quick" else [(hb, 100000), (hd, 40000), (hb, 200000)]
+    cb = os.path.join(ctx.build, "harness", "release", "conc")
+    cd = os.path.join(ctx.build, "harness", "debug", "conc")
+    plan = [(cb, 30000), (cd, 25000)] if ctx.tier == "quick" else [(cb, 100000), (cd, 40000), (cb, 200000)]
     for binp, turns in plan:
         rc, out, dt = sh([binp, "stack", str(turns), str(ctx.seed), str(2 * 1024 * 1024)], timeout=3000)
-        r["runs"].append({"profile": "release" if binp == hb else "debug", "turns": turns, "rc": rc, "out": out.strip()[-300:], "s": round(dt, 1)})
+        r["runs"].append({"profile": "release" if binp == cb else "debug", "turns": turns, "rc": rc, "out": out.strip()[-300:], "s": round(dt, 1)})
     lens = ["1000", "100000", "1000000"] if ctx.tier == "quick" else ["1000", "100000", "1000000", "10000000"]
     rc, out, dt = sh([hb, "dropprobe"] + lens, timeout=3000)
     r["probe_rc"] = rc
@@ -870,7 +875,11 @@ def check_property(ctx, pid):
             mon_hits.append({"prop": 18, "code": 2, "script": ["# concurrent expansion differs from sequential expansion"] + special.get("conc_bad", []),
                              "context": [json.dumps(special.get("conc", {}))], "job": "conc", "profile": "release"})
     if pid == "C20":
-        hb_ok = binfo["cargo"].get("release.verif_harness", {}).get("rc", 1) == 0
+        hb_ok = binfo["cargo"].get("release.verif_harness", {}).get("rc", 1) == 0 and \
+            binfo["cargo"].get("release.conc", {}).get("rc", 1) == 0 and binfo["cargo"].get("debug.conc", {}).get("rc", 1) == 0
+        if not hb_ok:
+            errors.append({"name": "stack", "error": "the stack-probe client (harness/src/bin/conc.rs) does not compile against /repo: " +
+                           binfo["cargo"].get("release.conc", {}).get("err", "")[-400:]})
         if hb_ok:
             special = run_stack(ctx, binfo)
             for r in special["runs"]:
